@@ -100,6 +100,11 @@ func candidateLines(src string) (lines []int, indents map[int]string) {
 		if len(l)-len(trimmed) != pos.Column-1 {
 			return // does not start its line
 		}
+		if pos.Line >= 2 && strings.HasPrefix(strings.TrimSpace(srcLines[pos.Line-2]), "//") {
+			// The directive would join an existing comment group (e.g. a doc
+			// comment whose text other checks quote in their messages).
+			return
+		}
 		if !seen[pos.Line] {
 			seen[pos.Line] = true
 			lines = append(lines, pos.Line)
@@ -378,6 +383,16 @@ func onePlacement(r *vf.Run, rng *rand.Rand, bin, cache, root string, si int, fi
 	lines := strings.Split(src, "\n")
 	newLines := append(append(append([]string{}, lines[:p.line-1]...), p.text()), lines[p.line-1:]...)
 	newSrc := strings.Join(newLines, "\n")
+	// Some checks react to the mere presence of a comment (e.g. S1008 stays
+	// silent when the if statement carries one). The reference is therefore
+	// the same file with a neutral, non-directive comment on the same line.
+	neutralLines := append(append(append([]string{}, lines[:p.line-1]...), p.indent+"//nolint-neutral comment"), lines[p.line-1:]...)
+	neutral, nerr := neutralReport(bin, cache, root, si, all, p.file, p.line, strings.Join(neutralLines, "\n"), src)
+	if nerr != "" {
+		res.inconcl = nerr
+		return
+	}
+	old = neutral
 	nodeLine := attachedLine(newSrc, p.line) // the directive now occupies line p.line
 	abs := filepath.Join(root, p.file)
 	if err := os.WriteFile(abs, []byte(newSrc), 0o644); err != nil {
@@ -408,12 +423,7 @@ func onePlacement(r *vf.Run, rng *rand.Rand, bin, cache, root string, si int, fi
 		return
 	}
 	// ---- prediction
-	shift := func(k pkey) pkey {
-		if k.file == p.file && k.line >= p.line {
-			k.line++
-		}
-		return k
-	}
+	shift := func(k pkey) pkey { return k } // the neutral reference already has the extra line
 	enabled := func(code string) bool {
 		c := strings.ToLower(code)
 		if !allChecks[c] {
@@ -566,4 +576,46 @@ func onePlacement(r *vf.Run, rng *rand.Rand, bin, cache, root string, si int, fi
 		}
 	}
 	return
+}
+
+var neutralMu sync.Mutex
+var neutralCache = map[string][]pkey{}
+
+// neutralReport lints the workspace with a neutral comment at the placement's line (memoised).
+func neutralReport(bin, cache, root string, si int, all bool, file string, line int, neutralSrc, origSrc string) ([]pkey, string) {
+	key := fmt.Sprintf("%d/%v/%s/%d", si, all, file, line)
+	neutralMu.Lock()
+	if v, ok := neutralCache[key]; ok {
+		neutralMu.Unlock()
+		return v, ""
+	}
+	neutralMu.Unlock()
+	abs := filepath.Join(root, file)
+	if err := os.WriteFile(abs, []byte(neutralSrc), 0o644); err != nil {
+		return nil, err.Error()
+	}
+	defer os.WriteFile(abs, []byte(origSrc), 0o644)
+	args := []string{"-f", "json", "-show-ignored"}
+	if all {
+		args = append(args, "-checks", "all")
+	}
+	out := lintrun.Cmd{Bin: bin, Dir: root, Env: []string{"STATICCHECK_CACHE=" + cache}, Args: append(args, "./...")}.Run()
+	if out.Killed || out.Crashed() || out.Exit > 1 {
+		return nil, "neutral reference run failed"
+	}
+	ps, err := out.Problems()
+	if err != nil {
+		return nil, "neutral reference run unparsable"
+	}
+	var ks []pkey
+	for _, p := range ps {
+		if p.Severity == "ignored" {
+			continue
+		}
+		ks = append(ks, keyOf(root, p))
+	}
+	neutralMu.Lock()
+	neutralCache[key] = ks
+	neutralMu.Unlock()
+	return ks, ""
 }
